@@ -4,7 +4,8 @@
    schedule is the one goextract read from transport.go on this run. *)
 From Apko Require Import Base.Prelude Model.Transport Spec.TransportSpec
   Proofs.TransportProofs Generated.Transport Generated.TransportShape
-  Model.TransportReq Model.TransportCache Proofs.TransportReqProofs Proofs.TransportCacheProofs.
+  Model.TransportReq Model.TransportCache Model.TransportCallers
+  Proofs.TransportReqProofs Proofs.TransportCacheProofs Proofs.TransportCallersProofs.
 
 (* the schedule in the source is non-empty and ends with "do not retry" *)
 Theorem c20_schedule_sound : sched_ok retry_schedule = true.
@@ -392,3 +393,48 @@ Example c20_cached_hypotheses_satisfiable :
   exists d' rds', cached_fetch code_cshape [1; 2; 3]%N CServe [ {| rk := 2; rfail := true; reager := false |} ]
                     {| adv := None; tmps := [] |} = Ok (d', None, rds') /\ adv d' = None /\ tmps d' = [].
 Proof. split; [reflexivity|]. split; [reflexivity|]. eexists _, _. split; [vm_compute; reflexivity|]. split; reflexivity. Qed.
+
+(* ======================================================================== *)
+(* Wave 3: the caller's decision about a failed download. fetchRepositoryIndex *)
+(* = RoundTrip, status test, io.ReadAll, `if err != nil { return nil, err }`;  *)
+(* the condition in front of that return is read from the source.             *)
+(* ======================================================================== *)
+Theorem c20_callers_as_modelled : readall_error_returned = true.
+Proof. reflexivity. Qed.
+Print Assumptions c20_callers_as_modelled.
+
+(* For every server whose body is shorter than io.ReadAll's first buffer (512 bytes: below
+   that the buffer sizes ReadAll passes are 512 - bytes read so far; beyond, see
+   c20_readall_complete_or_error, which holds for every sequence of sizes), every
+   body-read and connection script — retries exhausted or not, resumptions answered
+   with error statuses after any number of good ones included: fetchRepositoryIndex
+   terminates, and what it returns without an error is a prefix of the server's
+   bytes — all of them when every response is framed. *)
+Theorem c20_index_fetch_complete_or_error : forall srv rds cns,
+  List.length (data (base srv)) < readall_cap ->
+  exists so res, index_fetch_r readall_error_returned code_shape srv retry_schedule rds cns = Ok (so, res) /\
+    (forall b, res = Some b -> exists suf, data (base srv) = b ++ suf) /\
+    (framed cns -> forall b, res = Some b -> b = data (base srv)).
+Proof. intros srv rds cns. exact (index_fetch_complete_or_error readall_error_returned code_shape srv retry_schedule rds cns c20_callers_as_modelled (proj1 c20_text_as_modelled) c20_schedule_sound). Qed.
+Print Assumptions c20_index_fetch_complete_or_error.
+
+(* ... which is a fact about that condition (seeded change C20-9): with the read error
+   dropped, a resumption answered 503 leaves two of five bytes as the "complete" index,
+   every response framed *)
+Theorem c20_index_read_error_dropped_refuted :
+  exists srv rds cns so,
+    index_fetch_r false {| range_add := false; hdr_shared := true; install_early := false; fail_closes := true |}
+      srv retry_schedule rds cns = Ok (so, Some [1; 2]%N) /\
+    data (base srv) = [1; 2; 3; 4; 5]%N /\ framed cns.
+Proof. exact read_error_dropped_short_index. Qed.
+Print Assumptions c20_index_read_error_dropped_refuted.
+
+(* the same script with the error returned: an error *)
+Example c20_index_fetch_exhausted_is_error :
+  exists so,
+    index_fetch_r readall_error_returned code_shape
+      {| base := {| data := [1; 2; 3; 4; 5]%N; kind := HonoursRange; bare := false |}; ebody := [66]%N |}
+      retry_schedule
+      [ {| rk := 2; rfail := false; reager := false |}; {| rk := 0; rfail := true; reager := false |} ]
+      [CServe; CStatus] = Ok (so, None).
+Proof. eexists. vm_compute. reflexivity. Qed.
